@@ -590,8 +590,8 @@ def check_odd_tag(case):
             for i, k in enumerate(keys):
                 item[k] = sc.arange("row", i, i + n, unit=None)
         text = write_doc([cif.Block("b", [item])])
-    except ValueError:
-        return [*labs, "refused"], True
+    except Exception as e:  # noqa: BLE001 - a refusal is the expected outcome; its type is not stated
+        return [*labs, "refused", "refused-with:" + type(e).__name__], True
     if case["cls"] != "non-ascii":
         raise Violation("odd-tag-written", f"a {case['kind']} with the tag {keys[-2] if len(keys) == 3 else keys[0]!r} "
                         f"(keys {keys!r}) was written instead of refused", {"text": text[:600]})
